@@ -110,11 +110,69 @@ def planLoop (rels : List Rel) : Nat → List Q → List Rel → Nat → List Re
         let r := roundNames rels known
         planLoop rels fuel r.1 (acc ++ r.2) (rounds + 1)
 
-/-- number of iterations of the `for` loop in `Chop.calculate` -/
-def calcRounds : Nat := 12
+/-- number of iterations of the `for` loop in `Chop.calculate`: the bound of its one `range(N)` loop, read from the
+    source text at every run (no or several such loops: 0, and the closure theorems fail) -/
+def calcRounds : Nat :=
+  match CBV.Gen.c03CalcRounds with
+  | [n] => n
+  | _ => 0
 
 def plan (known : List Q) : Option (List Rel × Nat × Bool) :=
   relTable.map fun rels => planLoop rels calcRounds known [] 0
+
+/-! ### the validator calls of the relations, as the source text has them -/
+
+/-- one `_validate_*` call -/
+inductive Guard where
+  | length            -- `_validate_length(length)`: `length > 0`
+  | countGe1          -- `_validate_count(count, ">=1")`
+  | countGt1          -- `_validate_count(count, ">1")`
+  | size (q : Q)      -- `_validate_start_end_size(<q>, …)`: `> 0`
+  | ratio (q : Q)     -- `_validate_c2c_expansion` / `_validate_total_expansion`: `!= 0`
+  deriving DecidableEq, Repr
+
+def Guard.ofStrings? : String × String → Option Guard
+  | ("_validate_length", "length") => some .length
+  | ("_validate_count", "count >=1") => some .countGe1
+  | ("_validate_count", "count >1") => some .countGt1
+  | ("_validate_start_end_size", "start_size start") => some (.size .start)
+  | ("_validate_start_end_size", "end_size end") => some (.size .end_)
+  | ("_validate_c2c_expansion", "c2c_expansion") => some (.ratio .c2c)
+  | ("_validate_total_expansion", "total_expansion") => some (.ratio .total)
+  | _ => none
+
+def parseRelName (s : String) : Option Rel :=
+  match s.splitOn "<" with
+  | [o, ins] =>
+      match ins.splitOn "+" with
+      | [a, b] => do some ⟨← Q.ofString? o, ← Q.ofString? a, ← Q.ofString? b⟩
+      | _ => none
+  | _ => none
+
+/-- per relation: its validator calls in source order and the number of explicit `raise` statements,
+    as read from the source text at every run -/
+def guardTable : Option (List (Rel × List Guard × Nat)) :=
+  CBV.Gen.c03Guards.mapM fun ((o, a, b), gs, raises) => do
+    let rel : Rel := ⟨← Q.ofString? o, ← Q.ofString? a, ← Q.ofString? b⟩
+    let gs ← gs.mapM Guard.ofStrings?
+    some (rel, gs, raises)
+
+/-- what the model functions below implement: the same validators, and as many further explicit rejections
+    (`raise` statements: the bracket tests of the root finders, the `TOL` test, the sign test, the `isnan` test, the
+    test `length > start_size > 0`) -/
+def modelGuards : List (Rel × List Guard × Nat) :=
+  [(⟨.c2c, .count, .end_⟩, [.length, .countGe1, .size .end_], 1),
+   (⟨.c2c, .count, .start⟩, [.length, .countGe1], 2),
+   (⟨.c2c, .count, .total⟩, [.length, .countGt1, .ratio .total], 0),
+   (⟨.count, .end_, .c2c⟩, [.length, .size .end_, .ratio .c2c], 1),
+   (⟨.count, .start, .c2c⟩, [.length, .size .start, .ratio .c2c], 0),
+   (⟨.count, .total, .c2c⟩, [.length, .ratio .total, .ratio .c2c], 2),
+   (⟨.count, .total, .start⟩, [.length, .size .start, .ratio .total], 0),
+   (⟨.end_, .start, .total⟩, [.length, .ratio .total], 0),
+   (⟨.start, .count, .c2c⟩, [.length, .countGe1, .ratio .c2c], 0),
+   (⟨.start, .end_, .total⟩, [.length, .ratio .total], 0),
+   (⟨.total, .count, .c2c⟩, [.length, .countGe1, .ratio .c2c], 0),
+   (⟨.total, .start, .end_⟩, [.length, .size .start, .size .end_], 0)]
 
 /-! ### errors, oracle, tolerances -/
 
@@ -590,6 +648,15 @@ def addChop (t : Tol) (L : Rat) (spec : List Division) (ratio : Rat) (o : Oracle
         | some n, some T => pure (spec ++ [⟨ratio, n, T⟩])
         | _, _ => .error (.table, none)
 
+/-- a multi-section edge: `add_chop` for every chop in turn (`(length_ratio, solver answers, chop)`); the first
+    error aborts -/
+def addChops (t : Tol) (L : Rat) : List Division → List (Rat × Oracle × Vals) → Except (Err × Option Rel) (List Division)
+  | spec, [] => pure spec
+  | spec, (q, o, v) :: rest =>
+      match addChop t L spec q o v with
+      | .error e => .error e
+      | .ok spec' => addChops t L spec' rest
+
 /-- `Grading.inverted`: the divisions in reverse order with reciprocal expansion (`1 / 0` raises) -/
 def inverted (spec : List Division) : Except Err (List Division) :=
   if spec.any (fun d => d.total = 0) then .error .zeroDiv
@@ -862,14 +929,6 @@ def handleDescr (args : List String) : Option String :=
       match description ds with
       | .ok w => some ("ok " ++ showWritten w)
       | .error e => some ("err " ++ e.show)
-  | _ => none
-
-def parseRelName (s : String) : Option Rel :=
-  match s.splitOn "<" with
-  | [o, ins] =>
-      match ins.splitOn "+" with
-      | [a, b] => do some ⟨← Q.ofString? o, ← Q.ofString? a, ← Q.ofString? b⟩
-      | _ => none
   | _ => none
 
 def Vals.set (v : Vals) (q : Q) (x : Rat) : Option Vals :=
